@@ -149,6 +149,24 @@ impl<const OUT: usize> Authenticator for RecordingMac<OUT> {
     }
 }
 
+/// Guard against native replay.  `cargo kani playback` runs a harness without
+/// its #[kani::stub]s: the real HMAC would run, nothing would be recorded and
+/// the oracles below (which speak about the MAC MODEL) would fail for reasons
+/// that have nothing to do with the counterexample - which the runner would
+/// then report as "reproduced natively".  Every stubbed harness therefore
+/// starts with `if !stubs_in_force() { return; }`; this function is replaced
+/// by `stubs_are_in_force` through #[kani::stub] in the same attribute list
+/// as S5.  Natively the harness returns at once (test passes: "not reproduced
+/// natively", i.e. inconclusive); under Kani a missing stub leaves the cover
+/// witnesses unreachable (inconclusive as well).
+pub(crate) fn stubs_in_force() -> bool {
+    false
+}
+
+pub(crate) fn stubs_are_in_force() -> bool {
+    true
+}
+
 /// Replacement for `Algorithm::make_authenticator` (same signature).
 pub(crate) fn recording_authenticator(alg: &Algorithm, key: &[u8]) -> Box<dyn Authenticator> {
     assert!(key.len() == KEY_LEN, "harness keys have exactly KEY_LEN octets");
@@ -187,20 +205,6 @@ pub(crate) fn rec_reset_impl() {
         REC_MADE = 0;
         REC_OVERFLOW = false;
         LAST_TAG_LEN = usize::MAX;
-    }
-}
-
-/// Bridge for the D7 family (tsig_reserve.rs, a child of src/server/mod.rs): a
-/// ReadTsigRr whose names are views of static representations (`*_repr` =
-/// n_labels, label offsets, wire form), with an empty MAC.  What
-/// ReadTsigRr::try_from would build for such an RR, without walking the (long)
-/// names octet by octet.  The value must be mem::forget-ed.
-pub(crate) fn view_tsig_rr_impl(key_repr: &'static [u8], alg_repr: &'static [u8], rdata: &'static [u8]) -> ReadTsigRr<'static> {
-    ReadTsigRr {
-        key_name: boxed_view(key_repr),
-        algorithm: boxed_view(alg_repr),
-        mac_size: 0,
-        rdata: Cow::Borrowed(rdata.try_into().unwrap()),
     }
 }
 
@@ -422,6 +426,9 @@ fn alg_out(alg: Algorithm) -> usize {
 /// have concrete lengths and symbolic contents; `error` is concrete per
 /// harness (it decides the length of the other-data field).
 fn sign_case(mode: Mode, alg: Algorithm, msg: &[u8], prior: &[u8], error: u16) {
+    if !stubs_in_force() {
+        return;
+    }
     kani::assume(be16(msg, 10) >= 1); // documented precondition: ARCOUNT counts the TSIG RR
     let key: [u8; 2] = kani::any();
     let time: [u8; 6] = kani::any();
@@ -518,6 +525,7 @@ macro_rules! sign_harness {
         #[kani::unwind(34)]
         #[kani::stub(Algorithm::make_authenticator, recording_authenticator)]
         #[kani::stub(Algorithm::name, alg_name_static)]
+        #[kani::stub(stubs_in_force, stubs_are_in_force)]
         fn $name() {
             let msg: [u8; $n] = kani::any();
             let prior: [u8; $r] = kani::any();
@@ -648,6 +656,9 @@ fn rdata_of<const N: usize>(aw: &[u8], upcase: bool, time: &[u8; 6], fudge: u16,
 /// the algorithm name inside the RDATA is in upper case (the digest uses the
 /// canonical, lower-case form).
 fn verify_case<const M: usize, const L: usize, const R: usize, const O: usize, const N: usize>(mode: Mode, alg: Algorithm, upcase: bool) {
+    if !stubs_in_force() {
+        return;
+    }
     let msg: [u8; M] = kani::any();
     kani::assume(be16(&msg, 10) >= 1);
     let key: [u8; 2] = kani::any();
@@ -746,6 +757,7 @@ macro_rules! verify_harness {
         #[kani::unwind(34)]
         #[kani::stub(Algorithm::make_authenticator, recording_authenticator)]
         #[kani::stub(Algorithm::name, alg_name_static)]
+        #[kani::stub(stubs_in_force, stubs_are_in_force)]
         fn $name() {
             verify_case::<$m, $l, $r, $o, $n>($mode, $alg, $up);
         }
@@ -886,6 +898,47 @@ fn c11_try_from_read_rr() {
     }
 }
 
+// @harness props=C11,C10 tier=quick mem=4 t=600 kani="--no-assertion-reach-checks"
+//   fn="PreparedTsigRr::new_from_read,ReadTsigRr::time_signed,ReadTsigRr::original_id"
+//   bound="request TSIG RR (key 'k.', hmac-sha1., 3 MAC octets) with symbolic time signed / original ID; symbolic server time, fudge and error (all 2^16 values, BADTIME included); unwind 16"
+//   sym="time:[u8;6], original_id:u16, now:[u8;6], fudge:u16, error:u16"
+#[kani::proof]
+#[kani::unwind(16)]
+fn c11_new_from_read() {
+    let time: [u8; 6] = kani::any();
+    let now: [u8; 6] = kani::any();
+    let oid: u16 = kani::any();
+    let fudge: u16 = kani::any();
+    let error: u16 = kani::any();
+    let mac: [u8; 3] = kani::any();
+    let rd: [u8; 30] = rdata_of::<30>(&SHA1_WIRE, false, &time, 7, &mac, oid, 0, &[]);
+    let read = ReadTsigRr {
+        key_name: key_name(),
+        algorithm: alg_name_view(Algorithm::HmacSha1),
+        mac_size: 3,
+        rdata: Cow::Borrowed((&rd[..]).try_into().unwrap()),
+    };
+    let p = PreparedTsigRr::new_from_read(&read, TimeSigned::from(now), fudge, ExtendedRcode::from(error));
+    // RFC 8945 5.2.3 / 5.3.2: a BADTIME response repeats the request's time
+    // signed and carries the server's time as other data; every other
+    // response is stamped with the server's time
+    let x_time = if error == 18 { time } else { now };
+    let mut i = 0;
+    while i < 6 {
+        assert!(p.time_signed.as_array()[i] == x_time[i], "[C10] response time signed: the request's for BADTIME, the server's otherwise");
+        assert!(p.server_time.as_array()[i] == now[i], "[C10] server time is kept for the BADTIME other data");
+        i += 1;
+    }
+    assert!(p.fudge == fudge && p.original_id == oid && u16::from(p.error) == error, "[C10] fudge, original ID and error are carried over");
+    let kw = p.key_name.wire_repr();
+    assert!(kw.len() == 3 && kw[0] == 1 && kw[1] == b'k' && kw[2] == 0, "[C10] the response uses the request's key name");
+    let o = p.other();
+    assert!(o.len() == if error == 18 { 6 } else { 0 }, "[C11] other data exactly for BADTIME");
+    kani::cover!(error == 18, "BADTIME");
+    kani::cover!(error != 18, "other error");
+    core::mem::forget(read);
+}
+
 fn view_matches(view: &Name, wire: &[u8]) {
     let real = Name::try_from_uncompressed_all(wire).unwrap();
     assert!(view.len() == real.len(), "[C11] name view: label count equals the real constructor's");
@@ -904,7 +957,7 @@ fn view_matches(view: &Name, wire: &[u8]) {
     }
 }
 
-// @harness props=C11,C10,C01 quick=C11,C10,C01 tier=quick mem=4 t=600 kani="--no-assertion-reach-checks"
+// @harness props=C11,C10 tier=quick mem=4 t=600 kani="--no-assertion-reach-checks"
 //   fn="Algorithm::name,Name::try_from_uncompressed_all,Name::wire_repr,Name::len,Name::wire_repr_from"
 //   bound="the three static name representations used as inputs ('k.', 'hmac-sha1.', 'hmac-sha256.') against Name::try_from_uncompressed_all, and Algorithm::name() (the real lazy_static names) against the RFC 8945 algorithm names; concrete; unwind 16"
 //   sym="none"
